@@ -4,6 +4,8 @@ mod h_basic;
 mod h_subject;
 mod h_sched;
 mod h_conv;
+mod h_diff;
+mod h_threads;
 mod harness;
 mod model;
 mod val;
@@ -53,6 +55,8 @@ fn all_harnesses() -> Vec<HarnessDef> {
   v.extend(h_sched::harnesses2());
   v.extend(h_sched::harnesses3());
   v.extend(h_conv::harnesses());
+  v.extend(h_diff::harnesses());
+  v.extend(h_threads::harnesses());
   v
 }
 
